@@ -6,6 +6,8 @@ from .common import *
 from .adapters import *
 from . import c15
 
+CRATES = (UT, IM,)
+
 META = {
     "explanation": (
         "Static decision on MIR / item facts of the batched container implementation (impl VectorDiffContainerOps for Vec<VectorDiff<T>>) and of the "
